@@ -80,7 +80,11 @@ class vlan(packet_base):
 
         self.parsed = True
 
-        self.next = ethernet.parse_next(self,self.eth_type,raw,vlan.MIN_LEN)
+        try:
+            self.next = ethernet.parse_next(self,self.eth_type,raw,vlan.MIN_LEN)
+        except RecursionError:
+            # Absurdly deep stack of tags -- keep the rest as raw payload
+            self.next = raw[vlan.MIN_LEN:]
 
     @property
     def effective_ethertype (self):
